@@ -211,6 +211,7 @@ type FsCase struct {
 	Gzip    bool
 	Archive []byte // encoded (uncompressed) stream
 	Ents    []Ent  // what archive/tar's reader yields for Archive
+	Args    []string
 }
 
 // encode builds the tar stream and parses it back with the stdlib reader, so that the model
